@@ -29,6 +29,7 @@ def run(chk):
     chk.trusted_base = ["python ast parser", "CFG builder", "seed table of index spaces for API parameters (sa/props/e3.py SEEDS/CALLEES)"]
     chk.assumptions = ["untyped (literal) indices are not judged", "block pairing inside _meta_* functions is value-level and not decided"]
     e3.run_L1(chk)
+    e3.run_I7(chk)
     e3.run_L2(chk)
     e3.run_L3(chk)
     e3.run_L4(chk)
